@@ -2,7 +2,7 @@
     list-encoded operands.  Evaluated inside Coq (vm_compute) and, for volume,
     through extraction (Extract.v). *)
 From Coq Require Import ZArith List.
-From FastorV Require Import Base.Scalar Model.Cfg Model.Matmul Model.TMatmul.
+From FastorV Require Import Base.Scalar Base.Mem Model.Cfg Model.Matmul Model.TMatmul Model.Expr Model.ExprInt.
 Import ListNotations.
 
 Definition run_matmul_Z (c : cfg) (t : ety) (M K N : nat) (a b : list Z) : list Z :=
@@ -16,3 +16,9 @@ Definition run_tmatmul_Z (c : cfg) (t : ety) (tl tr M K N : nat) (a b : list Z) 
   map (tmatmul (S:=ZS) c t tl tr M K N (fun i => nth i a 0%Z) (fun i => nth i b 0%Z) (fun _ => 77777%Z)) (seq 0 (M*N + 2)).
 Definition run_tmatmul_C (c : cfg) (t : ety) (tl tr M K N : nat) (a b : list (Z*Z)) : list (Z*Z) :=
   map (tmatmul (S:=ZC) c t tl tr M K N (fun i => nth i a (0,0)%Z) (fun i => nth i b (0,0)%Z) (fun _ => (77777,0)%Z)) (seq 0 (M*N + 2)).
+
+(** C02: [tensors] are the operand buffers (number 0 is the destination), all of length n *)
+Definition run_assign_Z (bits : Z) (W n : nat) (boolean : bool) (aop : option nat) (e : expr ZS) (tensors : list (list Z)) : list Z :=
+  let m : mem ZS := fun k i => nth i (nth k tensors []) 77777%Z in
+  let o := int_sops bits in
+  map (assign o (vops_of o) W 0 n boolean aop e m 0) (seq 0 (n + 2)).
